@@ -469,6 +469,7 @@ def legacy_step(eng, cfg, message, loop_state=None, expr_result=None, clock=None
               "time_active": cfg.get("time_active"), "time_active_hold_off": cfg.get("hold_off"), "event_trigger_kwargs": {},
               "mqtt_trigger_kwargs": {}, "webhook_trigger_kwargs": {}, "event_trig_expr": None, "mqtt_trig_expr": None,
               "webhook_trig_expr": None})
+    f.update(cfg.get("fields", {}))
     f["active_expr"] = mk_expr("active_expr") if cfg.get("has_active") else None
     f["state_active_ident"] = SymPySet([])
     f["call_action"] = lambda i, nt, fa, run_task=True: (w.emit("call_action", nt, dict(fa)), cfg.get("call_action_returns", True))[1]
